@@ -90,7 +90,7 @@ class Workspace:
                 f.write("// placeholder\n")
         with open(os.path.join(r, "app", "src", "bin", "bp.rs"), "w") as f:
             f.write("fn main() {\n    let out: std::path::PathBuf = std::env::args().nth(1).unwrap().into();\n" +
-                    "".join("    app::%s::blueprint().persist(&out.join(\"%s.ron\")).unwrap();\n" % (m, m) for m in names) +
+                    "".join("    if std::panic::catch_unwind(|| app::%s::blueprint().persist(&out.join(\"%s.ron\")).unwrap()).is_err() { eprintln!(\"BP-PANIC %s\"); }\n" % (m, m, m) for m in names) +
                     "}\n")
 
     def cargo(self, args, timeout=1800):
